@@ -151,82 +151,110 @@ def check(chk: Check) -> None:
         chk.bad(R2, 'p_error', g.module.rel, 'no p_error')
         return
     node = g.module.defs[g.error_func]
-    fi = FuncInfo(g.module.name + '.' + g.error_func, g.module, node)
-    pn = node.args.args[0].arg
-    tok = ('param', pn)
-    problems = []
-    for p in SymExec(F, fi).run():
-        if any(c == ('cmp', 'is', tok, ('const', None)) and v for c, v, _ in p.assumptions) or \
-                any(c == tok and not v for c, v, _ in p.assumptions):
-            continue            # the None path (R3)
-        if p.outcome[0] != 'raise':
-            problems.append('the hook returns without raising')
+    hooks = [(FuncInfo(g.module.name + '.' + g.error_func, g.module, node), node.args.args[0].arg)]
+    # a hook installed over the grammar's own (`parser.errorfunc = self._report`): PLY calls that one, so it is judged the same way
+    for m_ in F.modules.values():
+        if '.ply' in m_.name:
             continue
-        msg = p.outcome[1]
-        if not om.mentions(msg, ('attr', tok, 'value')):
-            problems.append('the message does not contain the offending token\'s text (p.value)')
-        elif not any(_is_whole(x, ('attr', tok, 'value')) for x in _message_parts(msg)):
-            problems.append('on a path the message carries only a part or a transformation of the offending token\'s text (%s)' % ', '.join(
-                show(x) for x in _message_parts(msg) if om.mentions(x, ('attr', tok, 'value'))))
-        if om.mentions(msg, ('attr', ('attr', tok, 'lexer'), 'lineno')):
-            problems.append('the message reports p.lexer.lineno, the lexer\'s line *after* the offending token: one too many '
-                            'when that token is itself a line break (`1 +<newline>2 2` ...)')
-        elif not om.mentions(msg, ('attr', tok, 'lineno')):
-            problems.append('the message does not contain the token\'s line (p.lineno)')
-        if om.mentions(msg, ('attr', tok, 'type')) and not om.mentions(msg, ('attr', tok, 'value')):
-            problems.append('the message names the token type instead of its text')
-    chk.require(not problems, R2, fi.qual + ' [token given]', fi.where, '; '.join(sorted(set(problems))) or 'message interpolates p.value and p.lineno')
-    # ... and the exception class passes the message on as it was built: a constructor or __str__ of its own that shortens,
-    # re-formats or replaces the text can drop the line (the last part of the message) again
-    for cq in F.mro(om.PARSER_ERROR) + [q_ for q_ in F.subclasses(om.PARSER_ERROR) if q_ != om.PARSER_ERROR]:
-        ci = F.classes.get(cq)
-        if ci is None:
-            continue
-        probs = []
-        for mn in ('__str__', '__new__', '__init__'):
-            mq = cq + '.' + mn
-            if mn not in ci.methods or mq not in F.functions:
+        for n_ in ast.walk(m_.tree):
+            if isinstance(n_, ast.Assign) and any(isinstance(t_, ast.Attribute) and t_.attr == 'errorfunc' for t_ in n_.targets):
+                v_ = n_.value
+                q_ = None
+                if isinstance(v_, ast.Attribute) and isinstance(v_.value, ast.Name):
+                    for cq_, ci_ in F.classes.items():
+                        if ci_.module is m_ and v_.attr in ci_.methods and any(x is n_ for x in ast.walk(ci_.node)):
+                            q_ = cq_ + '.' + v_.attr
+                elif isinstance(v_, ast.Name):
+                    r_ = F.resolve_expr(m_, v_)
+                    q_ = r_[1] if r_[0] == 'fn' else None
+                if q_ is None or q_ not in F.functions:
+                    chk.unrec(R2, 'error hook installed at %s:%d' % (m_.rel, n_.lineno), '%s:%d' % (m_.rel, n_.lineno),
+                              '`%s` replaces the parser\'s error hook by something that is not a function of the package' % norm(n_))
+                    continue
+                hfi = F.func(q_)
+                hargs = hfi.node.args.args
+                is_method = hfi.cls is not None and not any(norm(d) == 'staticmethod' for d in hfi.node.decorator_list)
+                hooks.append((hfi, hargs[1 if is_method else 0].arg))
+    for fi, pn in hooks:
+        tok = ('param', pn)
+        problems = []
+        for p in SymExec(F, fi).run():
+            if any(c == ('cmp', 'is', tok, ('const', None)) and v for c, v, _ in p.assumptions) or \
+                    any(c == tok and not v for c, v, _ in p.assumptions):
+                continue            # the None path (R3)
+            if p.outcome[0] != 'raise':
+                problems.append('the hook returns without raising')
                 continue
-            mfi = F.func(mq)
-            a_ = mfi.node.args
-            own = {('param', x.arg) for x in a_.args[1:] + a_.kwonlyargs}
-            if a_.vararg:
-                own |= {('param', '*' + a_.vararg.arg), ('star', ('param', '*' + a_.vararg.arg)), ('param', a_.vararg.arg), ('star', ('param', a_.vararg.arg))}
-            for p in SymExec(F, mfi).run():
-                if not p.normal:
+            msg = p.outcome[1]
+            if not om.mentions(msg, ('attr', tok, 'value')):
+                problems.append('the message does not contain the offending token\'s text (p.value)')
+            elif not any(_is_whole(x, ('attr', tok, 'value')) for x in _message_parts(msg)):
+                problems.append('on a path the message carries only a part or a transformation of the offending token\'s text (%s)' % ', '.join(
+                    show(x) for x in _message_parts(msg) if om.mentions(x, ('attr', tok, 'value'))))
+            if om.mentions(msg, ('attr', ('attr', tok, 'lexer'), 'lineno')):
+                problems.append('the message reports p.lexer.lineno, the lexer\'s line *after* the offending token: one too many '
+                                'when that token is itself a line break (`1 +<newline>2 2` ...)')
+            elif not om.mentions(msg, ('attr', tok, 'lineno')):
+                problems.append('the message does not contain the token\'s line (p.lineno)')
+            if om.mentions(msg, ('attr', tok, 'type')) and not om.mentions(msg, ('attr', tok, 'value')):
+                problems.append('the message names the token type instead of its text')
+        chk.require(not problems, R2, fi.qual + ' [token given]', fi.where, '; '.join(sorted(set(problems))) or 'message interpolates p.value and p.lineno')
+        # ... and the exception class passes the message on as it was built: a constructor or __str__ of its own that shortens,
+        # re-formats or replaces the text can drop the line (the last part of the message) again
+        raised = set()
+        for p in SymExec(F, fi).run():
+            rc_ = common.raised_class(F, p.outcome[1]) if p.outcome[0] == 'raise' else None
+            if rc_ is not None and rc_[0] == 'cls' and rc_[1] in F.classes:
+                raised.add(rc_[1])
+        for cq in sorted({q_ for r_ in (raised or {om.PARSER_ERROR}) for q_ in F.mro(r_)}):     # the classes the hook raises, and their bases
+            ci = F.classes.get(cq)
+            if ci is None:
+                continue
+            probs = []
+            for mn in ('__str__', '__new__', '__init__'):
+                mq = cq + '.' + mn
+                if mn not in ci.methods or mq not in F.functions:
                     continue
-                if mn == '__str__':
-                    r = freeze(p.outcome[1])
-                    if not (isinstance(r, tuple) and r[:1] == ('call',) and isinstance(r[2], tuple) and r[2][:1] == ('attr',)
-                            and isinstance(r[2][1], tuple) and r[2][1][:1] == ('super',) and r[2][2] == '__str__'):
-                        probs.append('%s.__str__ returns %s, not the message' % (cq.rsplit('.', 1)[-1], show(r)[:80]))
-                    continue
-                ups = [e for e in p.events if e.kind == 'call' and isinstance(freeze(e.func), tuple) and freeze(e.func)[:1] == ('attr',)
-                       and isinstance(freeze(e.func)[1], tuple) and freeze(e.func)[1][:1] == ('super',) and freeze(e.func)[2] == mn]
-                if not ups:
-                    probs.append('a path of %s.%s does not hand the message to the base class' % (cq.rsplit('.', 1)[-1], mn))
-                for e in ups:
-                    given = [x for x in freeze(e.args) if x != ('param', a_.args[0].arg)]
-                    if not given or any(x not in own for x in given):
-                        probs.append('`%s` in %s.%s passes on %s instead of the arguments it received' % (
-                            e.text(), cq.rsplit('.', 1)[-1], mn, ', '.join(show(x) for x in given if x not in own)[:120] or 'nothing'))
-        if probs or any(mn in ci.methods for mn in ('__str__', '__new__', '__init__')):
-            chk.require(not probs, R2, '%s keeps the message' % cq, '%s:%d' % (ci.module.rel, ci.node.lineno),
-                        '; '.join(sorted(set(probs))[:2]) + ': the text p_error built (token, then line) is changed on its way to the host' if probs
-                        else 'the constructor passes its arguments on unchanged')
-    problems = []
-    nonepaths = SymExec(F, fi, args={pn: ('const', None)}).run()
-    for p in nonepaths:
-        if p.outcome[0] != 'raise' or not common.is_parser_error(F, common.raised_class(F, p.outcome[1])):
-            problems.append('the end-of-input path does not raise ParserError (%s)' % (show(p.outcome[1]) if p.outcome[0] == 'raise' else 'returns'))
-            continue
-        msg = p.outcome[1]
-        args = [v for n, v in msg[2]] if msg[:1] == ('new',) else []
-        if not args or not all(is_const(a) and isinstance(a[1], str) for a in args):
-            problems.append('the end-of-input message is not a constant text')
-        elif not any(w in args[0][1].lower() for w in ('end of input', 'end of text', 'end of file', 'eof', 'end of the')):
-            problems.append('the end-of-input message %r does not say that the input ended' % args[0][1])
-    chk.require(not problems, R3, fi.qual + ' [None given]', fi.where, '; '.join(sorted(set(problems))) or 'constant "unexpected end of input" ParserError')
+                mfi = F.func(mq)
+                a_ = mfi.node.args
+                own = {('param', x.arg) for x in a_.args[1:] + a_.kwonlyargs}
+                if a_.vararg:
+                    own |= {('param', '*' + a_.vararg.arg), ('star', ('param', '*' + a_.vararg.arg)), ('param', a_.vararg.arg), ('star', ('param', a_.vararg.arg))}
+                for p in SymExec(F, mfi).run():
+                    if not p.normal:
+                        continue
+                    if mn == '__str__':
+                        r = freeze(p.outcome[1])
+                        if not (isinstance(r, tuple) and r[:1] == ('call',) and isinstance(r[2], tuple) and r[2][:1] == ('attr',)
+                                and isinstance(r[2][1], tuple) and r[2][1][:1] == ('super',) and r[2][2] == '__str__'):
+                            probs.append('%s.__str__ returns %s, not the message' % (cq.rsplit('.', 1)[-1], show(r)[:80]))
+                        continue
+                    ups = [e for e in p.events if e.kind == 'call' and isinstance(freeze(e.func), tuple) and freeze(e.func)[:1] == ('attr',)
+                           and isinstance(freeze(e.func)[1], tuple) and freeze(e.func)[1][:1] == ('super',) and freeze(e.func)[2] == mn]
+                    if not ups:
+                        probs.append('a path of %s.%s does not hand the message to the base class' % (cq.rsplit('.', 1)[-1], mn))
+                    for e in ups:
+                        given = [x for x in freeze(e.args) if x != ('param', a_.args[0].arg)]
+                        if not given or any(x not in own for x in given):
+                            probs.append('`%s` in %s.%s passes on %s instead of the arguments it received' % (
+                                e.text(), cq.rsplit('.', 1)[-1], mn, ', '.join(show(x) for x in given if x not in own)[:120] or 'nothing'))
+            if probs or any(mn in ci.methods for mn in ('__str__', '__new__', '__init__')):
+                chk.require(not probs, R2, '%s keeps the message' % cq, '%s:%d' % (ci.module.rel, ci.node.lineno),
+                            '; '.join(sorted(set(probs))[:2]) + ': the text p_error built (token, then line) is changed on its way to the host' if probs
+                            else 'the constructor passes its arguments on unchanged')
+        problems = []
+        nonepaths = SymExec(F, fi, args={pn: ('const', None)}).run()
+        for p in nonepaths:
+            if p.outcome[0] != 'raise' or not common.is_parser_error(F, common.raised_class(F, p.outcome[1])):
+                problems.append('the end-of-input path does not raise ParserError (%s)' % (show(p.outcome[1]) if p.outcome[0] == 'raise' else 'returns'))
+                continue
+            msg = p.outcome[1]
+            args = [v for n, v in msg[2]] if msg[:1] == ('new',) else []
+            if not args or not all(is_const(a) and isinstance(a[1], str) for a in args):
+                problems.append('the end-of-input message is not a constant text')
+            elif not any(w in args[0][1].lower() for w in ('end of input', 'end of text', 'end of file', 'eof', 'end of the')):
+                problems.append('the end-of-input message %r does not say that the input ended' % args[0][1])
+        chk.require(not problems, R3, fi.qual + ' [None given]', fi.where, '; '.join(sorted(set(problems))) or 'constant "unexpected end of input" ParserError')
     if chk.tier == 'thorough':
         lmod = F.modules.get('smartquery.ply.lex')
         ok = False
